@@ -32,91 +32,105 @@ theorem rtDocOk_list_eq (doc : Node) : rtDocOk rList dList doc = rtOk rList dLis
 /-- what the schema part established for `basic`, as a table (node type, attributes, tag, `preserve_whitespace` of the
     rule that reads it back): paragraph ↔ `p`, blockquote, `hr`, heading levels 1–6 ↔ `h1`–`h6`, code_block ↔ `pre`
     (`"full"`), hard_break ↔ `br`.  `image` has no row (no pattern: `src` has no default): checked per document -/
-theorem basic_rtForms : formTable rBasic dBasic =
-    [(1, [], some ("p", .unset)), (2, [], some ("blockquote", .unset)), (3, [], some ("hr", .unset)),
-     (4, [("level", "1")], some ("h1", .unset)), (4, [("level", "1")], some ("h1", .unset)),
-     (4, [("level", "2")], some ("h2", .unset)), (4, [("level", "3")], some ("h3", .unset)),
-     (4, [("level", "4")], some ("h4", .unset)), (4, [("level", "5")], some ("h5", .unset)),
-     (4, [("level", "6")], some ("h6", .unset)), (5, [], some ("pre", .full)), (8, [], some ("br", .unset))] := by
+theorem basic_rtForms : (formTable rBasic dBasic).map (fun (r : TypeId × Attrs × Option (String × FromDom.WS)) =>
+      ((sBasic.nodeType r.1).name, r.2.1, r.2.2)) =
+    [("paragraph", [], some ("p", .unset)), ("blockquote", [], some ("blockquote", .unset)),
+     ("horizontal_rule", [], some ("hr", .unset)),
+     ("heading", [("level", "1")], some ("h1", .unset)), ("heading", [("level", "1")], some ("h1", .unset)),
+     ("heading", [("level", "2")], some ("h2", .unset)), ("heading", [("level", "3")], some ("h3", .unset)),
+     ("heading", [("level", "4")], some ("h4", .unset)), ("heading", [("level", "5")], some ("h5", .unset)),
+     ("heading", [("level", "6")], some ("h6", .unset)), ("code_block", [], some ("pre", .full)),
+     ("hard_break", [], some ("br", .unset))] := by
   decide +kernel
 
 /-- the mark patterns of `basic`: em, strong, code (link has none: `href` has no default) -/
-theorem basic_rtMarks : markPatterns rBasic = [⟨1, []⟩, ⟨2, []⟩, ⟨3, []⟩] := by
+theorem basic_rtMarks : (markPatterns rBasic).map (fun m => ((sBasic.markType m.ty).name, m.attrs)) =
+    [("em", []), ("strong", []), ("code", [])] := by
   decide +kernel
 
-/-! ## whole documents through the corollary (type ids of `basic`: doc 0, paragraph 1, blockquote 2, horizontal_rule 3,
-    heading 4, code_block 5, text 6, image 7, hard_break 8; of `list` also ordered_list 9, bullet_list 10, list_item 11;
-    marks: link 0, em 1, strong 2, code 3) -/
+/-! ## whole documents through the corollary
 
-def u (s : String) : List Nat := unitsOfChars s.toList
+  The documents are written with type *names* and the attributes *given* (`el` / `lf` / `tx` / `mk` look the type up and
+  complete / order the attributes as `compute_attrs` does), so that they stay the same documents when /repo reorders a spec
+  dict or adds an attribute with a default. -/
+
+def nid (S : Schema) (name : String) : TypeId :=
+  ((List.range S.nodes.size).find? (fun i => (S.nodeType i).name == name)).getD 0
+def mid (S : Schema) (name : String) : MarkTypeId :=
+  ((List.range S.marks.size).find? (fun i => (S.markType i).name == name)).getD 0
+def nattrs (S : Schema) (name : String) (given : Attrs) : Attrs :=
+  (okAttrs (computeAttrs (S.nodeType (nid S name)).attrs given)).getD []
+/-- a mark by name -/
+def mk (S : Schema) (name : String) (given : Attrs := []) : Mark :=
+  ⟨mid S name, (okAttrs (computeAttrs (S.markType (mid S name)).attrs given)).getD []⟩
+def el (S : Schema) (name : String) (given : Attrs) (kids : List Node) : Node := .elem (nid S name) (nattrs S name given) [] kids
+def lf (S : Schema) (name : String) (given : Attrs := []) (marks : Marks := []) : Node := .leaf (nid S name) (nattrs S name given) marks
+def tx (s : String) (marks : Marks := []) : Node := .text (unitsOfChars s.toList) marks
+def html (S : Schema) (D : ToDom) (doc : Node) : String := String.ofList (renderAll (serializeDoc S D doc))
 
 /-- doc(p(em("a "), strong("b"), " ", em+strong("c d"))): differently marked words separated by spaces -/
 def docWords : Node :=
-  .elem 0 [] [] [.elem 1 [] [] [.text [97, 32] [⟨1, []⟩], .text [98] [⟨2, []⟩], .text [32] [], .text [99, 32, 100] [⟨1, []⟩, ⟨2, []⟩]]]
+  el sBasic "doc" [] [el sBasic "paragraph" [] [tx "a " [mk sBasic "em"], tx "b" [mk sBasic "strong"], tx " ",
+    tx "c d" [mk sBasic "em", mk sBasic "strong"]]]
 theorem roundtrip_words : roundTrip rBasic dBasic docWords = .ok docWords := roundtrip_basic docWords (by decide +kernel)
-theorem html_words : String.ofList (renderAll (serializeDoc sBasic dBasic docWords)) =
-    "<p><em>a </em><strong>b</strong> <em><strong>c d</strong></em></p>" := by decide +kernel
+theorem html_words : html sBasic dBasic docWords = "<p><em>a </em><strong>b</strong> <em><strong>c d</strong></em></p>" := by
+  decide +kernel
 
 /-- doc(code_block("def f():\n    return 1\n\n\tx\n")): newlines, indentation, a tab -/
-def docCode : Node :=
-  .elem 0 [] [] [.elem 5 [] [] [.text [100, 101, 102, 32, 102, 40, 41, 58, 10, 32, 32, 32, 32, 114, 101, 116, 117, 114, 110, 32, 49, 10, 10, 9, 120, 10] []]]
+def docCode : Node := el sBasic "doc" [] [el sBasic "code_block" [] [tx "def f():\n    return 1\n\n\tx\n"]]
 theorem roundtrip_code : roundTrip rBasic dBasic docCode = .ok docCode := roundtrip_basic docCode (by decide +kernel)
-theorem html_code : String.ofList (renderAll (serializeDoc sBasic dBasic docCode)) =
-    "<pre><code>def f():\n    return 1\n\n\tx\n</code></pre>" := by decide +kernel
+theorem html_code : html sBasic dBasic docCode = "<pre><code>def f():\n    return 1\n\n\tx\n</code></pre>" := by decide +kernel
 
-/-- doc(p("see ", image(src="a.png", title="T & \"q\""), " here")): an image with attributes; the text after it may start with a space -/
+/-- doc(p("see ", image(src="a.png", title="T & \"q\""), " here")): an image with attributes (escaped in the HTML); the
+    text after it may start with a space -/
 def docImage : Node :=
-  .elem 0 [] [] [.elem 1 [] [] [.text [115, 101, 101, 32] [],
-    .leaf 7 [("src", "\"a.png\""), ("alt", "null"), ("title", "\"T & \\\"q\\\"\"")] [], .text [32, 104, 101, 114, 101] []]]
+  el sBasic "doc" [] [el sBasic "paragraph" [] [tx "see ",
+    lf sBasic "image" [("src", "\"a.png\""), ("title", "\"T & \\\"q\\\"\"")], tx " here"]]
 theorem roundtrip_image : roundTrip rBasic dBasic docImage = .ok docImage := roundtrip_basic docImage (by decide +kernel)
-theorem html_image : String.ofList (renderAll (serializeDoc sBasic dBasic docImage)) =
-    "<p>see <img src=\"a.png\" title=\"T &amp; &quot;q&quot;\"> here</p>" := by decide +kernel
 -- an `alt` text is emitted but no rule of the port reads it back: such an image does not pass the document part
 theorem image_alt_not_carried : rtDocOk rBasic dBasic
-    (.elem 0 [] [] [.elem 1 [] [] [.leaf 7 [("src", "\"a.png\""), ("alt", "\"x\""), ("title", "null")] []]]) = false := by decide +kernel
+    (el sBasic "doc" [] [el sBasic "paragraph" [] [lf sBasic "image" [("src", "\"a.png\""), ("alt", "\"x\"")]]]) = false := by
+  decide +kernel
 
 /-- doc(p(link(href="http://x/?a=1&b=2")("click"), " now")) -/
 def docLink : Node :=
-  .elem 0 [] [] [.elem 1 [] [] [.text [99, 108, 105, 99, 107] [⟨0, [("href", "\"http://x/?a=1&b=2\""), ("title", "null")]⟩],
-    .text [32, 110, 111, 119] []]]
+  el sBasic "doc" [] [el sBasic "paragraph" [] [tx "click" [mk sBasic "link" [("href", "\"http://x/?a=1&b=2\"")]], tx " now"]]
 theorem roundtrip_link : roundTrip rBasic dBasic docLink = .ok docLink := roundtrip_basic docLink (by decide +kernel)
-theorem html_link : String.ofList (renderAll (serializeDoc sBasic dBasic docLink)) =
-    "<p><a href=\"http://x/?a=1&amp;b=2\">click</a> now</p>" := by decide +kernel
+theorem html_link : html sBasic dBasic docLink = "<p><a href=\"http://x/?a=1&amp;b=2\">click</a> now</p>" := by decide +kernel
 
 /-- doc(h3("Title"), blockquote(p("q")), hr) -/
 def docHeading : Node :=
-  .elem 0 [] [] [.elem 4 [("level", "3")] [] [.text [84, 105, 116, 108, 101] []],
-                 .elem 2 [] [] [.elem 1 [] [] [.text [113] []]], .leaf 3 [] []]
+  el sBasic "doc" [] [el sBasic "heading" [("level", "3")] [tx "Title"],
+                      el sBasic "blockquote" [] [el sBasic "paragraph" [] [tx "q"]], lf sBasic "horizontal_rule"]
 theorem roundtrip_heading : roundTrip rBasic dBasic docHeading = .ok docHeading := roundtrip_basic docHeading (by decide +kernel)
-theorem html_heading : String.ofList (renderAll (serializeDoc sBasic dBasic docHeading)) =
-    "<h3>Title</h3><blockquote><p>q</p></blockquote><hr>" := by decide +kernel
+theorem html_heading : html sBasic dBasic docHeading = "<h3>Title</h3><blockquote><p>q</p></blockquote><hr>" := by decide +kernel
 -- a heading of level 7 is emitted as `<h7>`, which no rule reads: not in the document part
-theorem heading7_not_carried : rtDocOk rBasic dBasic (.elem 0 [] [] [.elem 4 [("level", "7")] [] []]) = false := by decide +kernel
+theorem heading7_not_carried : rtDocOk rBasic dBasic (el sBasic "doc" [] [el sBasic "heading" [("level", "7")] []]) = false := by
+  decide +kernel
 
 /-- doc(p("a", hard_break, "b", hard_break)) -/
 def docBreak : Node :=
-  .elem 0 [] [] [.elem 1 [] [] [.text [97] [], .leaf 8 [] [], .text [98] [], .leaf 8 [] []]]
+  el sBasic "doc" [] [el sBasic "paragraph" [] [tx "a", lf sBasic "hard_break", tx "b", lf sBasic "hard_break"]]
 theorem roundtrip_break : roundTrip rBasic dBasic docBreak = .ok docBreak := roundtrip_basic docBreak (by decide +kernel)
-theorem html_break : String.ofList (renderAll (serializeDoc sBasic dBasic docBreak)) = "<p>a<br>b<br></p>" := by decide +kernel
+theorem html_break : html sBasic dBasic docBreak = "<p>a<br>b<br></p>" := by decide +kernel
 -- a space after a hard break is dropped by the parser: not whitespace-normal
 theorem break_space_not_normal : rtDocOk rBasic dBasic
-    (.elem 0 [] [] [.elem 1 [] [] [.text [97] [], .leaf 8 [] [], .text [32, 98] []]]) = false := by decide +kernel
+    (el sBasic "doc" [] [el sBasic "paragraph" [] [tx "a", lf sBasic "hard_break", tx " b"]]) = false := by decide +kernel
 
-/-- list schema (its `doc` has an attribute `meta`, default `None`): doc(ul(li(p("a"), ol(li(p(em("b"))), li(p("c")))), li(p("d")))): a nested list -/
+/-- list schema: doc(ul(li(p("a"), ol(li(p(em("b"))), li(p("c")))), li(p("d")))): a nested list -/
 def docList : Node :=
-  .elem 0 [("meta", "null")] [] [.elem 10 [] [] [
-    .elem 11 [] [] [.elem 1 [] [] [.text [97] []],
-                    .elem 9 [("order", "1")] [] [.elem 11 [] [] [.elem 1 [] [] [.text [98] [⟨1, []⟩]]],
-                                                 .elem 11 [] [] [.elem 1 [] [] [.text [99] []]]]],
-    .elem 11 [] [] [.elem 1 [] [] [.text [100] []]]]]
+  el sList "doc" [] [el sList "bullet_list" [] [
+    el sList "list_item" [] [el sList "paragraph" [] [tx "a"],
+      el sList "ordered_list" [] [el sList "list_item" [] [el sList "paragraph" [] [tx "b" [mk sList "em"]]],
+                                  el sList "list_item" [] [el sList "paragraph" [] [tx "c"]]]],
+    el sList "list_item" [] [el sList "paragraph" [] [tx "d"]]]]
 theorem roundtrip_nested_list : roundTrip rList dList docList = .ok docList := roundtrip_list docList (by decide +kernel)
-theorem html_nested_list : String.ofList (renderAll (serializeDoc sList dList docList)) =
+theorem html_nested_list : html sList dList docList =
     "<ul><li><p>a</p><ol><li><p><em>b</em></p></li><li><p>c</p></li></ol></li><li><p>d</p></li></ul>" := by decide +kernel
 -- the port's `ol` rule has no `getAttrs`: a start number is emitted (`<ol start="3">`) but not read back
-theorem list_start_not_carried : rtDocOk rList dList
-    (.elem 0 [("meta", "null")] [] [.elem 9 [("order", "3")] [] [.elem 11 [] [] [.elem 1 [] [] []]]]) = false := by decide +kernel
-theorem html_list_start : String.ofList (renderAll (serializeDoc sList dList
-    (.elem 0 [("meta", "null")] [] [.elem 9 [("order", "3")] [] [.elem 11 [] [] [.elem 1 [] [] []]]]))) = "<ol start=\"3\"><li><p></p></li></ol>" := by
-  decide +kernel
+def docStart : Node :=
+  el sList "doc" [] [el sList "ordered_list" [("order", "3")] [el sList "list_item" [] [el sList "paragraph" [] []]]]
+theorem list_start_not_carried : rtDocOk rList dList docStart = false := by decide +kernel
+theorem html_list_start : html sList dList docStart = "<ol start=\"3\"><li><p></p></li></ol>" := by decide +kernel
 
 end PM.Family.C19RoundTrip
